@@ -448,3 +448,21 @@ ADDED18 = {
 for _pid, _extra in ADDED18.items():
     t, text, note, ref = CLAIMED[_pid]
     CLAIMED[_pid] = (t, text + _extra, note, ref)
+
+ADDED19 = {
+ "C01": " Round 19: C13.index-as-given and C13.range-error adopted (a position outside the sequence is refused, never counted from the other end).",
+ "C03": " Round 19: C10.deref-waits adopted (a deref answers only after the future has delivered).",
+ "C04": " Round 19: the map of a value that was handed in or asserted (and of a local copy of one) may be nil for writing (C04.site).",
+ "C09": " Round 19: a lock-required method is not called on a scope that was already handed on (C09.scope-guard); throw never returns without an error (C09.throw-total).",
+ "C12": " Round 19: the adapter of a registered builtin keeps nothing writable between calls (C12.adapter-state); the loop over the argument list of a variadic builtin is left early only on an error (C12.splice-all).",
+ "C13": " Round 19: C13.argument-loop, C13.index-as-given; C13.ok-flag also covers the predicates of package types.",
+ "C14": " Round 19: the comparison reads nothing of a collection but its elements (C14.val-only).",
+ "C15": " Round 19: C06.brackets and C06.marker adopted for the keyword form (C15.keyword-*).",
+ "C16": " Round 19: inside the element loop the only verdict where the tokens may have run out is the EOF error (C16.eof-only).",
+ "C17": " Round 19: no operand of and/or/cond is wrapped in a function handed to a header function that goes on through a builtin (C17.macro-operands, symbolic expansion of the headers).",
+ "C18": " Round 19: the command set is read from != comparisons too (C18.enum).",
+ "C19": " Round 19: C02.write (C19.values-write), print purity (C19.print-pure) and C10.redeposit adopted.",
+}
+for _pid, _extra in ADDED19.items():
+    t, text, note, ref = CLAIMED[_pid]
+    CLAIMED[_pid] = (t, text + _extra, note, ref)
